@@ -192,6 +192,7 @@ impl Api {
                 self.h.insert(y.to_string(), n); ok() }
             ["gc"] => { self.ctx.impl_.collect_cycles(); ok() }
             ["obs"] => self.obs(),
+            ["memcheck"] => self.memcheck(),
             ["nodes"] => format!("nodes={}", self.ctx.impl_.node_count()),
             ["leakcheck"] => {
                 for (_, h) in self.h.iter() { if let H::L(l) = h { l.unlisten(); } }
@@ -202,6 +203,52 @@ impl Api {
             }
             _ => "bad-op".into(),
         }
+    }
+
+    /// L-mem: the collector's contract checked on the real graph: for every unfreed gc node,
+    /// count >= (edges reported by unfreed nodes' trace) + (handles this harness and the context's
+    /// strong-listener list are known to hold); and no reported edge leads to a freed node.
+    fn memcheck(&self) -> String {
+        use std::collections::HashMap as Map;
+        let gc = self.ctx.impl_.gc_ctx();
+        gc.v_registry_prune();
+        let nodes = gc.v_registry();
+        let mut inc: Map<u32, u32> = Map::new();
+        let mut freed_target: Option<(u32, u32)> = None;
+        for n in &nodes {
+            if n.v_freed() { continue; }
+            let from = n.v_id();
+            n.trace(|t| { *inc.entry(t.v_id()).or_insert(0) += 1; if t.v_freed() { freed_target = Some((from, t.v_id())); } });
+        }
+        let mut held: Map<u32, u32> = Map::new();
+        let mut freed_held: Option<String> = None;
+        let mut add = |name: &str, g: &sodium_rust::verif::GcNode| {
+            *held.entry(g.v_id()).or_insert(0) += 1;
+            if g.v_freed() { freed_held = Some(format!("{name} (gc node {})", g.v_id())); }
+        };
+        for (name, h) in self.h.iter() {
+            match h {
+                H::S(s) => add(name, &s.impl_.node().gc_node),
+                H::SS(s) => add(name, &s.stream().impl_.node().gc_node),
+                H::C(c) => add(name, &c.impl_.node().gc_node),
+                H::CS(c) => { add(name, &c.cell().impl_.node().gc_node); }
+                H::SL(l) => add(name, &l.impl_.gc_node),
+                H::L(l) => { let _ = l; }
+                _ => {}
+            }
+        }
+        if let Some(x) = freed_held { return format!("mem=BAD the object behind held handle {x} has been freed by the collector"); }
+        let mut add = |id: u32| *held.entry(id).or_insert(0) += 1;
+        for (_, h) in self.h.iter() { if let H::L(l) = h { add(l.impl_.gc_node.v_id()); } }
+        self.ctx.impl_.with_data(|d: &mut SodiumCtxData| { for l in &d.keep_alive { add(l.gc_node.v_id()); } });
+        if let Some((a, b)) = freed_target { return format!("mem=BAD unfreed node {a} reports an edge to freed node {b}"); }
+        for n in &nodes {
+            if n.v_freed() { continue; }
+            let id = n.v_id();
+            let (rc, i, h) = (n.ref_count(), *inc.get(&id).unwrap_or(&0), *held.get(&id).unwrap_or(&0));
+            if rc < i + h { return format!("mem=BAD node {id} ({}) count {rc} < reported in-edges {i} + held handles {h}", n.v_name()); }
+        }
+        "mem=ok".into()
     }
 
     fn obs(&self) -> String {
